@@ -353,6 +353,8 @@ def oracle(out: tuple, src: str) -> str | None:
                 span.startswith("{" + t.hashes) and span.endswith(t.hashes + "}") and len(t.hashes) >= 1)
             if not ok or t.text not in span:
                 return f"text: comment token {dump(t)}"
+            if type(t) is T.CommentToken and str(t) != span:
+                return f"text: comment token {dump(t)} does not spell its span {span!r}"
         elif isinstance(t, T.OutputToken):
             if not (span.startswith("{{") and span.endswith("}}")):
                 return "text: output token delimiters"
